@@ -13,10 +13,12 @@ From SKV Require Import Params Base.Lex.
 Import ListNotations.
 Local Open Scope N_scope.
 
-(* HashMap<u64,u64> as an association list; fm_remove deletes every occurrence and fm_insert
+(* HashMap<u64,(u64,Option<u64>)> as an association list: fingerprint -> (stamp of the last
+   publisher, stamp that publisher overwrote).  fm_remove deletes every occurrence and fm_insert
    conses after removing, so keys stay unique (proved in Oracle_proofs.v) *)
-Definition fmap := list (N * N).
-Fixpoint fm_get (f : N) (m : fmap) : option N :=
+Definition entry := (N * option N)%type.
+Definition fmap := list (N * entry).
+Fixpoint fm_get (f : N) (m : fmap) : option entry :=
   match m with
   | [] => None
   | (g, v) :: r => if N.eqb f g then Some v else fm_get f r
@@ -26,8 +28,10 @@ Fixpoint fm_remove (f : N) (m : fmap) : fmap :=
   | [] => []
   | (g, v) :: r => if N.eqb f g then fm_remove f r else (g, v) :: fm_remove f r
   end.
-Definition fm_insert (f v : N) (m : fmap) : fmap := (f, v) :: fm_remove f m.
-Definition fm_retain (p : N -> bool) (m : fmap) : fmap := filter (fun e => p (snd e)) m.
+Definition fm_insert (f : N) (v : entry) (m : fmap) : fmap := (f, v) :: fm_remove f m.
+Definition fm_retain (p : entry -> bool) (m : fmap) : fmap := filter (fun e => p (snd e)) m.
+(* the stamp recorded for a fingerprint *)
+Definition fm_stamp (f : N) (m : fmap) : option N := option_map fst (fm_get f m).
 
 Record ostate := { recent : fmap; kept_since : N; commits_since_gc : N }.
 Definition o_new : ostate := {| recent := []; kept_since := 0; commits_since_gc := 0 |}.
@@ -36,6 +40,8 @@ Inductive verdict := VOk | VConflict | VRetry.
 
 (* u32::saturating_add(1) *)
 Definition sat_inc (c : N) : N := if N.ltb c ORACLE_COUNTER_MAX then c + 1 else c.
+
+Definition stamp_of (seq count : N) : N := seq + count - 1.
 
 Section Oracle.
 Variable fp : bytes -> N.
@@ -46,58 +52,54 @@ Variable G : N.
 Definition check (s : ostate) (keys : list bytes) (start : N) : verdict :=
   if ORACLE_RETRY_CMP start (kept_since s) then VRetry
   else if existsb (fun k => match fm_get (fp k) (recent s) with
-                            | Some committed => ORACLE_CONFLICT_CMP committed start
+                            | Some (committed, _) => ORACLE_CONFLICT_CMP committed start
                             | None => false
                             end) keys
        then VConflict else VOk.
 
-Definition stamp_of (seq count : N) : N := seq + count - 1.
 
-(* CommitOracle::publish *)
+(* CommitOracle::publish — per key: an entry that already carries this batch's stamp (the same
+   key twice in one batch) is left alone; otherwise the entry becomes (stamp, Some current stamp)
+   or (stamp, None) *)
+Definition pub_step (stamp : N) (m : fmap) (k : bytes) : fmap :=
+  match fm_get (fp k) m with
+  | Some (current, _) =>
+    if ORACLE_PUBLISH_SAME_CMP current stamp then m else fm_insert (fp k) (stamp, Some current) m
+  | None => fm_insert (fp k) (stamp, None) m
+  end.
 Definition publish (s : ostate) (keys : list bytes) (seq count oldest_active : N) : ostate :=
   let stamp := stamp_of seq count in
-  let r := fold_left (fun m k => fm_insert (fp k) stamp m) keys (recent s) in
+  let r := fold_left (pub_step stamp) keys (recent s) in
   let c := sat_inc (commits_since_gc s) in
   if ORACLE_GC_COUNT_CMP c G && ORACLE_GC_MARK_CMP oldest_active (kept_since s) then
-    {| recent := fm_retain (fun v => ORACLE_RETAIN_CMP v oldest_active) r;
+    {| recent := fm_retain (fun v => ORACLE_RETAIN_CMP (fst v) oldest_active) r;
        kept_since := oldest_active; commits_since_gc := 0 |}
   else {| recent := r; kept_since := kept_since s; commits_since_gc := c |}.
 
-(* CommitOracle::rollback — REMOVES the entry when its stamp is still the caller's *)
+(* CommitOracle::rollback — when the entry still carries the caller's stamp, the stamp it had
+   overwritten is put back (with nothing remembered behind it: a one-level undo), or the entry is
+   removed if it had overwritten nothing *)
+Definition rb_step (my_seq : N) (m : fmap) (k : bytes) : fmap :=
+  match fm_get (fp k) m with
+  | Some (v, previous) =>
+    if ORACLE_ROLLBACK_CMP v my_seq
+    then match previous with Some p => fm_insert (fp k) (p, None) m | None => fm_remove (fp k) m end
+    else m
+  | None => m
+  end.
 Definition rollback (s : ostate) (keys : list bytes) (my_seq : N) : ostate :=
-  {| recent := fold_left (fun m k => match fm_get (fp k) m with
-                                     | Some v => if ORACLE_ROLLBACK_CMP v my_seq then fm_remove (fp k) m else m
-                                     | None => m
-                                     end) keys (recent s);
+  {| recent := fold_left (rb_step my_seq) keys (recent s);
      kept_since := kept_since s; commits_since_gc := commits_since_gc s |}.
 
 (* CommitOracle::reset_for_restore *)
 Definition reset_for_restore (s : ostate) (max_seq : N) : ostate :=
   {| recent := []; kept_since := max_seq; commits_since_gc := 0 |}.
 
-(* ---- the repaired rollback (NOT in the crate; documents what a fix must achieve) ----
-   publish additionally hands back, for every key, the stamp the map held before this publish;
-   rollback_restore puts that stamp back (or removes the entry if there was none) when the entry
-   still carries the failed commit's stamp. *)
-Definition undo := list (N * option N).
-Definition publish_undo (s : ostate) (keys : list bytes) : undo :=
-  map (fun k => (fp k, fm_get (fp k) (recent s))) keys.
-Definition restore1 (stamp : N) (m : fmap) (e : N * option N) : fmap :=
-  match fm_get (fst e) m with
-  | Some v => if N.eqb v stamp
-              then match snd e with Some p => fm_insert (fst e) p m | None => fm_remove (fst e) m end
-              else m
-  | None => m
-  end.
-Definition rollback_restore (s : ostate) (u : undo) (stamp : N) : ostate :=
-  {| recent := fold_left (restore1 stamp) u (recent s);
-     kept_since := kept_since s; commits_since_gc := commits_since_gc s |}.
-
 (* what a caller can observe of the state: the least start that is not answered Retry, and for a
    key the least start >= that which is answered Ok (the harness finds both by bisection over
    `check`; the driver prints them from the state) *)
 Definition observe_key (s : ostate) (k : bytes) : N :=
-  match fm_get (fp k) (recent s) with
+  match fm_stamp (fp k) (recent s) with
   | Some v => N.max v (kept_since s)
   | None => kept_since s
   end.
